@@ -260,6 +260,7 @@ def transformers(repo):
 def run(ctx):
     repo = ctx.repo
     _merge_conflict_relation(ctx, repo)
+    _terminal_measurements_by_position(ctx, repo)
     shared.control_index_monotone_rule(ctx, 'C06.q', ['cirq-core/cirq/transformers/', 'cirq-core/cirq/circuits/'], floor=2)
     ctx.decided.append('C06.q placement bookkeeping keeps, per control key, the latest moment that reads it (running maximum)')
     shared.qudit_blind_dispatch_rule(ctx, 'C06.p', ['cirq-core/cirq/transformers/', 'cirq-google/cirq_google/transformers/'], floor=4)
@@ -1015,3 +1016,38 @@ def _merge_conflict_relation(ctx, repo, rid='C06.r'):
         ok = any(t == tab and (src is None or s_ == src) for t, s_ in got)
         ctx.ob(rid, f'{ci.qual}.get_mergeable_components:{tab}<-{src or "qubits"}', ok, '' if ok else
                f'the bound on the merge moment never consults {tab} for the component\'s {src or "qubits"} (consulted: {sorted(got)})', ci.mod.rel, fn.lineno)
+
+
+def _terminal_measurements_by_position(ctx, repo, rid='C06.s'):
+    """Users of find_terminal_measurements identify the terminal measurements by (moment index, operation), never by the operation's value alone."""
+    ctx.decided.append(f'{rid} every consumer of find_terminal_measurements keeps the moment index of each pair (an equal measurement earlier in the circuit is not terminal)')
+    ctx.rule(rid, 'terminal measurements are positions, not values: wherever the (moment index, operation) pairs returned by find_terminal_measurements are iterated, the loop / '
+             'comprehension binds the index to a name it uses (not `_`), or the pairs are kept whole - a set of the operations alone makes an earlier, equal measurement count as '
+             'terminal, so defer_measurements leaves it in place and later controls on its key find nothing deferred', floor=2, style='EFF')
+    n = 0
+    for mod, ci, fn in repo.all_functions():
+        if mod.rel.endswith('_test.py') or not mod.rel.startswith('cirq-core/cirq/'):
+            continue
+        par = None
+        for c in ast.walk(fn):
+            if not (isinstance(c, ast.Call) and call_name(c).split('.')[-1] == 'find_terminal_measurements'):
+                continue
+            if par is None:
+                par = mod.parents()
+            p = par.get(c)
+            tgt = None
+            scope = None
+            if isinstance(p, ast.comprehension) and p.iter is c:
+                tgt, scope = p.target, par.get(p)
+            elif isinstance(p, ast.For) and p.iter is c:
+                tgt, scope = p.target, p
+            n += 1
+            if tgt is None:
+                ctx.ob(rid, f'{mod.name}.{fn.name}:pairs-kept-whole', True, '', mod.rel, c.lineno)
+                continue
+            first = tgt.elts[0] if isinstance(tgt, ast.Tuple) and tgt.elts else None
+            used = isinstance(first, ast.Name) and first.id != '_' and any(isinstance(x, ast.Name) and x.id == first.id and isinstance(x.ctx, ast.Load) for x in ast.walk(scope))
+            ctx.ob(rid, f'{mod.name}.{fn.name}:index-used', used, '' if used else
+                   f'`{ast.unparse(scope)[:80]}` drops the moment index of every terminal measurement: what remains identifies operations by value', mod.rel, c.lineno)
+    if n == 0:
+        raise AnalysisError(f'{rid}: no consumer of find_terminal_measurements found')
